@@ -48,9 +48,25 @@ type Z int
 // Al is an alias declaration (generators that implement GenerateAliasType are called for it).
 type Al = map[string]int
 `,
+		"lib/lib.go": `// Package lib holds generic types; it is never selected itself (processed only as a dependency under All).
+package lib
+
+// Box is generic.
+type Box[T any] struct {
+	V T
+}
+
+// Pair is generic.
+type Pair[K any, V any] struct {
+	K K
+	V V
+}
+`,
 		"p/p.go": `// Package p docs. It alone enables the generator "na" through a package-level tag.
 // +gengo:na
 package p
+
+import "x.io/test/lib"
 
 // A is documented.
 type A struct {
@@ -70,6 +86,11 @@ type Sub struct {
 type Named map[string]string
 
 type Z int
+
+// Holder has a field of a generic type of another package, instantiated with a type of THIS package.
+type Holder struct {
+	B lib.Box[Sub]
+}
 
 // Al is an alias declaration (generators that implement GenerateAliasType are called for it).
 type Al = map[string]int
@@ -95,7 +116,16 @@ type Al = map[string]int
 `,
 		"r/r.go": `package r
 
-import "x.io/test/p"
+import (
+	"x.io/test/lib"
+	"x.io/test/p"
+)
+
+// RH refers to the same instantiation as p.Holder - from outside p - and to one over a type of its own.
+type RH struct {
+	B lib.Box[p.Sub]
+	C lib.Pair[A, p.Sub]
+}
 
 // R uses p.
 type R struct {
@@ -245,6 +275,9 @@ func spec(dir string, entry []string, all bool, order []string) pipe.Spec {
 			gs.Default.DocOfFieldTypes = true
 			// and refers to two packages through snippet VALUES shared by all packages of the process
 			gs.Default.SharedExpose = true
+			// and renders the type of every field through snippet.ID (p.Holder and r.RH hold the same generic
+			// instantiation, seen from inside and from outside the package of its type argument)
+			gs.Default.FieldTypeIDs = true
 		}
 		if g == "g2" {
 			// a generator that registers deferred callbacks and imports per type
@@ -337,7 +370,7 @@ func checkCase(c *core.Ctx, cs Case) {
 	}
 	// the packages this run has to process: the entrypoints and, with All, the module packages they import
 	// (r imports p; s imports q and r) - known from the module model, not from who happened to call back
-	localDeps := map[string][]string{"r": {"p"}, "s": {"q", "r", "p"}}
+	localDeps := map[string][]string{"p": {"lib"}, "r": {"p", "lib"}, "s": {"q", "r", "p", "lib"}}
 	processed := map[string]bool{}
 	for _, e := range cs.Entry {
 		processed[e] = true
